@@ -1,7 +1,7 @@
 """C07 - every strict prefix of a valid frame raises UnmarshalingException."""
 import struct
 
-from .. import canon
+from .. import canon, refcodec, refspec
 from ..gen import faults, wire
 from . import common
 
@@ -57,6 +57,41 @@ def cases(shard, rnd):
                              [rnd.randrange(n + 8) for _ in range(24)]))
             yield {'gen': ['body', n, rnd.randint(0, 65535), fill],
                    'kind': 'body', 'cuts': pts}
+        # method / header / body frames whose size sits on and around the
+        # thresholds a decoder might treat specially (255/256, the 4096-byte
+        # minimum frame-max, 64 KiB, the default frame-max): every cut in the
+        # first and last 40 bytes, the field boundaries, and random ones
+        for target in (248, 255, 256, 257, 4088, 4095, 4096, 4097, 4104,
+                       8192, 65535, 65536, 65537, 131072, 131073):
+            pad = rnd.choice(['x', '\xce', 'é'])
+            for kind in ('method', 'header', 'body'):
+                if kind == 'method':
+                    base_len = len(refcodec.enc_method(
+                        refspec.BY_NAME['Connection.StartOk'].index,
+                        {'client_properties': {'k': 'v'}, 'mechanism':
+                         'PLAIN', 'response': '', 'locale': 'en_US'}, 1)) - 8
+                    resp = 'r' * max(0, target - base_len)
+                    fb = refcodec.enc_method(
+                        refspec.BY_NAME['Connection.StartOk'].index,
+                        {'client_properties': {'k': 'v'}, 'mechanism':
+                         'PLAIN', 'response': resp, 'locale': 'en_US'},
+                        rnd.choice([0, 1, 65535]))
+                elif kind == 'header':
+                    base_len = len(refcodec.enc_header(
+                        5, {'headers': {'k': ''}}, 1)) - 8
+                    fb = refcodec.enc_header(
+                        5, {'headers': {'k': 'h' * max(0, target - base_len)}},
+                        rnd.choice([1, 65535]))
+                else:
+                    fb = struct.pack('>BHI', 3, 1, target) + \
+                        (pad.encode('utf-8') * target)[:target] + b'\xce'
+                n = len(fb)
+                pts = set(range(0, min(n, 41))) | \
+                    set(range(max(0, n - 40), n)) | \
+                    {k for k in (255, 256, 4095, 4096, 4097, 4103, 4104,
+                                 65535, 65536, 65543, 131072) if k < n} | \
+                    {rnd.randrange(n) for _ in range(16)}
+                yield {'frame': fb, 'kind': kind, 'cuts': sorted(pts)}
         for fb, _ in faults.big_worst_cases(rnd, 4000):
             yield {'frame': fb, 'kind': 'method' if fb[0] == 1 else 'body',
                    'cuts': sorted(set(
